@@ -2,6 +2,9 @@ import Driver.Proto
 import Driver.History
 import Driver.Algo
 import Driver.Tok
+import Driver.Pat
+import Driver.Rank
+import Driver.Filter
 /-
 fzfmodel: reads protocol lines `<area> <op> <args>... => <impl answer>` on stdin and
 prints, per line, `EQ|NE PASS|FAIL|NA | model=<answer> | <reason>`.
@@ -13,6 +16,9 @@ def dispatch (ctx : Driver.Algo.Ctx) (area op : String) (args impl : List String
   | "hist" => Driver.History.run op args impl
   | "algo" => Driver.Algo.run ctx op args impl
   | "tok" => Driver.Tok.run op args impl
+  | "pat" => Driver.Pat.run ctx op args impl
+  | "rank" => Driver.Rank.run ctx op args impl
+  | "filter" => Driver.Filter.run ctx op args impl
   | _ => { model := "bad-area" }
 
 def processLine (ctx : Driver.Algo.Ctx) (line : String) : String :=
